@@ -51,11 +51,15 @@ def mutants_of(rel):
             code = line.split("//")[0]
             if not code.strip() or ln == lo and "fn " in code:
                 continue
-            for pat, rep in (OPS2 if os.environ.get('MUT_SET') == '2' else OPS):
+            for pat, rep in ([(r' \+= ', ' -= '), (r'\.saturating_add\(', '.wrapping_add('), (r'\.checked_sub\(1\)', '.checked_sub(0)'), (r'Ordering::Less => ', 'Ordering::Greater => ')] if os.environ.get('MUT_SET') == '3' else OPS2 if os.environ.get('MUT_SET') == '2' else OPS):
                 for m in re.finditer(pat, code):
                     new = line[:m.start()] + rep + line[m.end():]
                     out.append({"item": item, "line": ln, "kind": "%s -> %s" % (pat.strip(), rep.strip()), "old": line.strip(), "new": new.strip(), "text": new})
             s = code.strip()
+            if os.environ.get('MUT_SET') == '3':
+                if s.endswith(';') and re.match(r'^[A-Za-z_][A-Za-z0-9_.\[\]*]* [-+|&]?= ', s) and not s.startswith('let '):
+                    out.append({'item': item, 'line': ln, 'kind': 'delete assignment', 'old': s, 'new': '', 'text': ''})
+                continue
             # statement deletion: a plain call statement
             if os.environ.get('MUT_SET') != '2' and s.endswith(";") and not s.startswith(("let ", "return", "use ", "//", "}", "break", "continue")) and "=" not in s.split("(")[0] and s.count("(") >= 1:
                 out.append({"item": item, "line": ln, "kind": "delete statement", "old": s, "new": "", "text": ""})
